@@ -41,6 +41,9 @@ type Config struct {
 	DenomFee       bool
 	CommunityDenom string
 	Uptimes        int
+	// BootGauges: number of paying epochs of three lock gauges created at genesis with one and the same start time (0 = not
+	// created): gauges that share a start time share one reference list, whose order changes when one of them finishes
+	BootGauges [3]int
 }
 
 var splits = [][3]string{{"1", "0", "0"}, {"0.5", "0.3", "0.2"}, {"0.3", "0.3", "0.4"}, {"0", "0", "1"}, {"0.67", "0.33", "0"}, {"0.4", "0.4", "0.2"}}
@@ -55,6 +58,7 @@ func GenConfig(rt *rapid.T) Config {
 		DenomFee:       rapid.Bool().Draw(rt, "denomFee"),
 		CommunityDenom: rapid.SampledFrom([]string{"", "usdc", "uosmo"}).Draw(rt, "communityDenom"),
 		Uptimes:        rapid.IntRange(1, 3).Draw(rt, "uptimes"),
+		BootGauges:     rapid.SampledFrom([][3]int{{0, 0, 0}, {1, 3, 3}, {3, 1, 3}, {1, 1, 3}, {2, 1, 2}, {1, 2, 3}, {3, 3, 3}}).Draw(rt, "bootGauges"),
 	}
 }
 
@@ -110,6 +114,9 @@ func Bootstrap(cfg Config) func(n *Node, ctx sdk.Context) {
 		a.ConcentratedLiquidityKeeper.SetParams(ctx, cl)
 		ip := a.IncentivesKeeper.GetParams(ctx)
 		ip.DistrEpochIdentifier = cfg.DistrEpoch
+		// the default test genesis carries an empty minimum-value coin, with which no lock is ever paid (every reward denom
+		// "differs" from the empty denom and has no route to it): use the mainnet shape so that gauges do pay
+		ip.MinValueForDistribution = sdk.NewCoin("uosmo", osmomath.NewInt(10_000))
 		a.IncentivesKeeper.SetParams(ctx, ip)
 		mp := a.MintKeeper.GetParams(ctx)
 		mp.EpochIdentifier = cfg.MintEpoch
@@ -156,6 +163,19 @@ func Bootstrap(cfg Config) func(n *Node, ctx sdk.Context) {
 		}
 		if err := a.SuperfluidKeeper.AddNewSuperfluidAsset(ctx, sftypes.SuperfluidAsset{Denom: gammtypes.GetPoolShareDenom(p2), AssetType: sftypes.SuperfluidAssetTypeLPShare}); err != nil {
 			panic(err)
+		}
+		// the middle gauge pays another lock denom, held by two actors only: the order in which gauges are visited decides
+		// the order of the reward receivers (sends and events are aggregated per receiver in first-appearance order)
+		if cfg.BootGauges != [3]int{} {
+			for _, i := range []int{2, 3} {
+				run(lockuptypes.NewMsgLockTokens(Actor(i), time.Hour, sdk.NewCoins(coin("usdc", 2_000_000+int64(i)))))
+			}
+		}
+		for i, ep := range cfg.BootGauges {
+			if ep > 0 {
+				run(incentivestypes.NewMsgCreateGauge(false, Actor(i%(NActors-1)), lockuptypes.QueryCondition{LockQueryType: lockuptypes.ByDuration, Denom: []string{"foo", "usdc", "foo"}[i], Duration: time.Second},
+					sdk.NewCoins(coin("uosmo", 30_000_000+int64(i))), Base, uint64(ep), 0))
+			}
 		}
 	}
 }
